@@ -210,6 +210,63 @@ fn items_for(p: &Proto, deep: bool) -> Vec<Item> {
     v
 }
 
+
+/// The prologue each party ASKED for is what must agree. A builder whose prologue is set twice either refuses the
+/// second call (snow does: ParameterOverwrite) or uses the second value - it must not quietly keep the first. Two
+/// parties that set a common default first and different prologues afterwards must therefore not get a channel.
+fn prologue_set_twice(ctx: &Ctx) {
+    use snow::Builder;
+    let firsts: [&[u8]; 3] = [b"", b"common", &[7u8; 64]];
+    for name in ["Noise_NN_25519_ChaChaPoly_SHA256", "Noise_XX_25519_AESGCM_BLAKE2b", "Noise_NNpsk0_25519_ChaChaPoly_SHA512"] {
+        for first in firsts {
+            for (si, sr) in [(b"-alice".as_slice(), b"-bob".as_slice()), (b"".as_slice(), b"x".as_slice()), (b"x".as_slice(), b"".as_slice())] {
+                ctx.add(&ctx.evaluations, 1);
+                let mk = |init: bool| -> Result<snow::HandshakeState, snow::Error> {
+                    let second: Vec<u8> = [first, if init { si } else { sr }].concat();
+                    let sk = key_bytes(if init { 1 } else { 2 });
+                    let mut b = Builder::new(name.parse()?).prologue(first)?;
+                    b = b.prologue(&second)?;
+                    if name.contains("XX") {
+                        b = b.local_private_key(&sk)?;
+                    }
+                    if name.contains("psk0") {
+                        b = b.psk(0, &[3u8; 32])?;
+                    }
+                    if init {
+                        b.build_initiator()
+                    } else {
+                        b.build_responder()
+                    }
+                };
+                let r = std::panic::catch_unwind(std::panic::AssertUnwindSafe(|| -> Option<()> {
+                    let (mut i, mut r) = (mk(true).ok()?, mk(false).ok()?);
+                    let (mut m, mut o) = (vec![0u8; 1024], vec![0u8; 1024]);
+                    let n = if name.contains("XX") { 3 } else { 2 };
+                    for k in 0..n {
+                        if k % 2 == 0 {
+                            let l = i.write_message(b"", &mut m).ok()?;
+                            r.read_message(&m[..l], &mut o).ok()?;
+                        } else {
+                            let l = r.write_message(b"", &mut m).ok()?;
+                            i.read_message(&m[..l], &mut o).ok()?;
+                        }
+                    }
+                    let (mut ti, mut tr) = (i.into_transport_mode().ok()?, r.into_transport_mode().ok()?);
+                    let l = ti.write_message(b"hello", &mut m).ok()?;
+                    tr.read_message(&m[..l], &mut o).ok()?;
+                    Some(())
+                }));
+                ctx.count("prologue set twice", 1);
+                if let Ok(Some(())) = r {
+                    ctx.violation("peers that differ in the prologue (each set a common value first and its own afterwards) completed the handshake and exchanged transport messages", format!("{name}: first {:?}, then +{:?} / +{:?}", String::from_utf8_lossy(first), String::from_utf8_lossy(si), String::from_utf8_lossy(sr)), json!({"kind": "prologue-twice"}));
+                } else {
+                    ctx.add(&ctx.nontrivial, 1);
+                }
+            }
+        }
+    }
+}
+
 pub fn run(tier: Tier) -> i32 {
     let ctx = Ctx::new("C08", tier, "model_checking");
     let quick = ctx.quick();
@@ -232,6 +289,7 @@ pub fn run(tier: Tier) -> i32 {
             protos.push((Proto::new(b, &[(k % (b.msgs.len() + 1)) as u8], d, c, h).unwrap(), true));
         }
     }
+    prologue_set_twice(&ctx);
     ctx.count("names", protos.len() as u64);
     protos.par_iter().for_each(|(p, deep)| {
         let ops = ops_for(p, if p.n_msgs() % 2 == 0 { Mode::TS } else { Mode::ST });
@@ -349,6 +407,14 @@ pub fn run(tier: Tier) -> i32 {
 }
 
 pub fn replay(case: &serde_json::Value) -> Result<(), String> {
+    if case["kind"] == "prologue-twice" {
+        let ctx = Ctx::new("C08", Tier::Quick, "model_checking");
+        prologue_set_twice(&ctx);
+        return match ctx.violations.lock().unwrap().first() {
+            Some(v) => Err(format!("{}: {}", v.signature, v.detail)),
+            None => Ok(()),
+        };
+    }
     let (cfg, ops) = sess::case_from_json(case).ok_or("bad case")?;
     let what = case["what"].as_str().unwrap_or("a context item").to_string();
     match judge(&cfg, &ops, &what) {
